@@ -215,6 +215,10 @@ class Model:
         if not payloads:
             return []
         text = ''.join('%x %s\n' % (entry, enc(p)) for p in payloads)
+        t0 = time.time()
+        if os.environ.get('VERIF_TRACE_CALLS'):
+            with open(os.path.join(WORK, 'last_call_%x.txt' % entry), 'w') as f_:
+                f_.write(text)
         p = subprocess.run(['bash', '-c', 'ulimit -s unlimited 2>/dev/null; exec ' + RUNNER],
                            input=text, stdout=subprocess.PIPE, stderr=subprocess.PIPE,
                            text=True, timeout=timeout)
@@ -223,6 +227,8 @@ class Model:
             raise RuntimeError('model runner failed rc=%s stderr=%s (got %d of %d lines)' %
                                (p.returncode, p.stderr[-500:], len(lines), len(payloads)))
         self.calls += len(payloads)
+        if os.environ.get('VERIF_TRACE_CALLS'):
+            sys.stderr.write('[model] entry %d: %d payloads, %.1fs\n' % (entry, len(payloads), time.time() - t0))
         out = []
         for l in lines[:len(payloads)]:
             out.append('!stack' if l.startswith('!') else dec(l))
